@@ -116,27 +116,25 @@ def run(ctx, ck):
                                                                        ' (through sign arrays)') if dep
                   else 'accumulated value does not depend on the image sign')
     it = m.func('mininec.Mininec.image_iter')
-    rets = [r for r in walk_no_nested(it.node) if isinstance(r, ast.Return)]
+    # closed returned sequences per path (tables, slices and iter/list wrappers folded)
+    from ..symx import closed_returns
     shapes = {}
-    for r in rets:
-        g = if_chain_preds(ctx.flow(it).cfg, ctx.flow(it).node_id_of(r))
-        shapes[norm(r.value)] = g
-    def media_none(guards):
-        """True / False / None: does the guard chain say `self.media is None`?"""
-        val = None
-        for t, b in guards:
-            if t == 'self.media is None':
-                val = b
-            elif t == 'self.media is not None':
-                val = not b
-            elif t in ('self.media', 'not self.media'):
-                val = None      # truthiness differs from None-ness ([] is ideal ground in old APIs)
-        return val
-    ok = set(shapes) == {'iter([1])', 'iter([1, -1])'}
-    if ok:
-        a_, b_ = media_none(shapes['iter([1])']), media_none(shapes['iter([1, -1])'])
-        # one of the two returns is guarded, the other is the fall-through
-        ok = (a_ is True and b_ in (None, False)) or (b_ is False and a_ in (None, True))
+    for conds_, ret_ in closed_returns(ctx, it, private_only=True):
+        v_ = ret_
+        while isinstance(v_, ast.Call) and isinstance(v_.func, ast.Name) and v_.func.id in ('iter', 'list', 'tuple') \
+                and len(v_.args) == 1:
+            v_ = v_.args[0]
+        seq = None
+        if isinstance(v_, (ast.List, ast.Tuple)):
+            try:
+                seq = tuple(ast.literal_eval(x_) for x_ in v_.elts)
+            except ValueError:
+                seq = None
+        mn = [b_ for t_, b_ in conds_ if t_ == 'self.media is None' and isinstance(b_, bool)]
+        shapes.setdefault(seq if seq is not None else norm(ret_), set()).add(mn[-1] if mn else None)
+    # [1] exactly when there is no ground (media is None), [1, -1] otherwise
+    ok = set(shapes) == {(1,), (1, -1)} and shapes[(1,)] == {True} and shapes[(1, -1)] == {False}
+    shapes = {str(k_): sorted(v_, key=str) for k_, v_ in shapes.items()}
     ck.ob('R-LIT.image-iter', it.qual, ok, it.loc(), 'returns %s' % shapes)
 
     from .C08 import check_weights
